@@ -19,7 +19,7 @@ class Stream:
     a disagreement is a failing input by itself)."""
 
     def __init__(self, name, role, impl_lines, model_lines=None, judge=None, nontrivial=None,
-                 exhaustive=False, rule="", canon=None, impl_env=None, known=None, post=None, known_query=None, groups=None, judge_query=None):
+                 exhaustive=False, rule="", canon=None, impl_env=None, known=None, post=None, known_query=None, groups=None, judge_query=None, pycheck=None, canon_line=None):
         self.name = name
         self.role = role
         self.impl_lines = impl_lines
@@ -41,6 +41,10 @@ class Stream:
         # judge_query(impl_line, impl_out) -> model line running the property's own checker on the
         # implementation's behaviour; the answer "B:0" means the property fails on this input
         self.judge_query = judge_query
+        # role 'pycheck': pycheck(impl_line, impl_out) -> True when the implementation's behaviour on this
+        # case satisfies the property (an executable checker independent of the mirror)
+        self.pycheck = pycheck
+        self.canon_line = canon_line   # canon_line(impl_line, out) -> out (applied to both sides, after canon)
         self.groups = groups
         if groups is not None:
             self.impl_lines = [l for _, ls in groups for l in ls]
@@ -145,6 +149,7 @@ def run_check(pid, tier, seed):
         os.makedirs(work, exist_ok=True)
         streams = P["streams"](tier, rng, {"rvm": rvm, "rvh": rvh, "work": work, "seed": seed})
         spec_failed_inputs = set()
+        listed_kf = set(f["id"] for f in load_known_findings().get("findings", []) if f["property"] == pid)
         mirror_mismatch = []
         for st in streams:
             ts = time.time()
@@ -152,7 +157,11 @@ def run_check(pid, tier, seed):
                 io = [o for outs in rvlib.run_groups(rvh, st.groups, work, st.name + ".impl") for o in outs]
             else:
                 io = rvlib.run_sharded(rvh, st.impl_lines, work, st.name + ".impl", env=st.impl_env)
-            if st.role == "check":
+            if st.role == "pycheck":
+                io_raw = io
+                io = ["B:1" if st.pycheck(l, o) else "B:0 impl=" + o[:400] for l, o in zip(st.impl_lines, io_raw)]
+                mo = ["B:1"] * len(io)
+            elif st.role == "check":
                 st.model_lines = [st.post(l, o) for l, o in zip(st.impl_lines, io)]
                 mo = rvlib.run_sharded(rvm, st.model_lines, work, st.name + ".model")
                 io_raw = io
@@ -160,6 +169,7 @@ def run_check(pid, tier, seed):
                 mo = ["B:1"] * len(io)
             else:
                 mo = rvlib.run_sharded(rvm, st.model_lines, work, st.name + ".model")
+                io_raw = io
             n = len(st.impl_lines)
             evaluations += n
             nt = set()
@@ -168,8 +178,10 @@ def run_check(pid, tier, seed):
                 a, b = io[i], mo[i]
                 if st.canon:
                     a, b = st.canon(a), st.canon(b)
+                if st.canon_line:
+                    a, b = st.canon_line(st.impl_lines[i], a), st.canon_line(st.impl_lines[i], b)
                 if a != b:
-                    mism.append((i, st.impl_lines[i], io[i], mo[i]))
+                    mism.append((i, st.impl_lines[i], io_raw[i] if st.role == "pycheck" else io[i], mo[i]))
                 if st.nontrivial is None or st.nontrivial(st.impl_lines[i], io[i]):
                     nt.add(st.impl_lines[i].split("\t", 1)[-1])
             nt_all |= nt
@@ -203,11 +215,13 @@ def run_check(pid, tier, seed):
                 kid = st.known(line, a, b) if st.known else None
                 if not kid and kq:
                     kid = kq.get(line.split("\t", 1)[1])
+                if kid and kid not in listed_kf:
+                    kid = None      # only a finding listed in known_findings.json for this property is set aside
                 if kid:
                     known_hit.setdefault(kid, (st.name, line, a, b))
                     continue
                 failing = None
-                if st.role in ("spec", "check"):
+                if st.role in ("spec", "check", "pycheck"):
                     failing = True
                 elif st.judge:
                     failing = st.judge(line, a)
